@@ -406,6 +406,13 @@ impl Renderer {
                 }
             }
             "tick" => vec!["tick".into()],
+            // a command whose words expand to nothing (U is never set; no positional parameters)
+            "nil" => match self.pick(4) {
+                0 => vec!["$U".into()],
+                1 => vec!["\"$@\"".into()],
+                2 => vec!["${U}".into(), "$U".into()],
+                _ => vec!["$U$U".into()],
+            },
             "cmd" => vec![if n.s == "nosuch" { "nosuchcmd".to_string() } else { n.s.clone() }],
             "brk" | "cnt" => {
                 let name = if n.k == "brk" { "break" } else { "continue" };
@@ -465,10 +472,10 @@ impl Renderer {
         s
     }
 
-    /// The whole program with its prelude.  `e`: errexit, `t`: EXIT trap
+    /// The whole program with its prelude.  `m`: monitor option on.  `e`: errexit, `t`: EXIT trap
     /// `probe 0` set on the first line, `y` > 0: a line with a syntax error
     /// follows top-level line `y`.
-    pub fn program(&mut self, root: &Node, e: bool, t: bool, y: usize) -> Rendered {
+    pub fn program(&mut self, root: &Node, e: bool, t: bool, y: usize, m: bool) -> Rendered {
         let real = self.mode == Mode::Real;
         let mut flags: Vec<String> = vec![];
         let mut prelude: Vec<String> = vec![];
@@ -480,6 +487,14 @@ impl Renderer {
                 0 | 1 => flags.push("-e".into()),
                 2 => prelude.push("set -e".into()),
                 _ => prelude.push("set -o errexit".into()),
+            }
+        }
+        if m {
+            // monitor (job control) option
+            match self.pick(4) {
+                0 | 1 => flags.push("-m".into()),
+                2 => prelude.push("set -m".into()),
+                _ => prelude.push("set -o monitor".into()),
             }
         }
         if t {
